@@ -8,6 +8,7 @@ from ..core import (AnalysisError, body_nodes, call_name, dotted, is_self_attr, 
                     names_in, params, parent, self_method_calls, stmts_of, unparse)
 from ..dtable import UNKNOWN, run_paths
 from ..dtable import _val as dval
+from ..pattern import find, pmatch
 from ..flow import check_errflow
 
 MPO = 'tenpy/networks/mpo.py'
@@ -197,6 +198,137 @@ def check_derived_range(prog, rep):
                               (a, b, sorted(map(str, got)), want), f.lineno)
 
 
+def check_sanitised_range(prog, rep):
+    """mpo.py: once a function has made a sanitised copy of `X.max_range` (a local assigned from
+    it and re-assigned under a None / inf test), the raw attribute is not read again: the raw
+    value may be None or inf, which is exactly what the copy exists to avoid."""
+    m = prog.module(MPO)
+    n = 0
+    for q, f in m.functions.items():
+        sts = list(stmts_of(f))
+        for st in sts:
+            e = pmatch('$v = $$x.max_range', st)
+            if not e:
+                continue
+            v, raw = e['$v'], unparse(st.value)
+            san = [s2 for s2 in sts if isinstance(s2, ast.If) and s2.lineno > st.lineno and
+                   v in names_in(s2.test) and ('None' in unparse(s2.test) or
+                                               'inf' in unparse(s2.test)) and
+                   any(isinstance(b, ast.Assign) and unparse(b.targets[0]) == v for b in s2.body)]
+            if not san:
+                continue
+            n += 1
+            rep.instance('RANGE-sanitised', {'function': q, 'raw': raw, 'sanitised': v})
+            for s2 in sts:
+                if s2.lineno <= san[0].lineno or isinstance(s2, (ast.If, ast.For, ast.While,
+                                                                 ast.With, ast.Try)):
+                    continue
+                for x in ast.walk(s2):
+                    if isinstance(x, ast.Attribute) and isinstance(x.ctx, ast.Load) and \
+                            unparse(x) == raw:
+                        rep.violation('RANGE-sanitised', m, q, 'raw-range:%s' % raw,
+                                      '`%s` reads the raw `%s` although `%s` holds its sanitised '
+                                      'value (None / inf replaced): for an operand of unknown or '
+                                      'infinite range the expression fails or is meaningless' %
+                                      (key_text(s2)[:70], raw, v), x.lineno)
+    return n
+
+
+def check_loop_limits(prog, rep):
+    """mpo.py: the bound of an inner `range(..)` loop is a per-iteration quantity of the outer
+    loop: a name that bounds an inner range must not be narrowed self-referentially
+    (`v = min(v, g(i))`) in the outer loop body, or the limit computed for one outer iteration is
+    inherited by all later ones (to_TermList: terms of later start sites are cut short)."""
+    m = prog.module(MPO)
+    n = 0
+    for q, f in m.functions.items():
+        for outer in ast.walk(f):
+            if not isinstance(outer, ast.For):
+                continue
+            otg = {x.id for x in ast.walk(outer.target) if isinstance(x, ast.Name)}
+            for inner in ast.walk(outer):
+                if inner is outer or not isinstance(inner, ast.For) or not (
+                        isinstance(inner.iter, ast.Call) and call_name(inner.iter) == 'range'):
+                    continue
+                bounds = set()
+                for a in inner.iter.args:
+                    bounds |= names_in(a)
+                for st in ast.walk(outer):
+                    if isinstance(st, ast.Assign) and len(st.targets) == 1 and \
+                            isinstance(st.targets[0], ast.Name) and st.targets[0].id in bounds \
+                            and st.lineno < inner.lineno:
+                        v = st.targets[0].id
+                        n += 1
+                        carried = v in names_in(st.value) and bool(names_in(st.value) & otg)
+                        rep.instance('RANGE-loop-carried', {'function': q, 'bound': v,
+                                                            'assignment': key_text(st)[:60],
+                                                            'self_referential': carried})
+                        if carried:
+                            rep.violation('RANGE-loop-carried', m, q, 'carried:%s' % v,
+                                          '`%s` inside `for %s in %s` narrows `%s` using its own '
+                                          'previous value and the loop variable; `%s` bounds the '
+                                          'inner loop `for %s in %s`, so the limit of one '
+                                          'iteration is inherited by all later ones' %
+                                          (key_text(st)[:60], unparse(outer.target),
+                                           unparse(outer.iter)[:30], v, v,
+                                           unparse(inner.target), unparse(inner.iter)[:40]),
+                                          st.lineno)
+    return n
+
+
+def check_id_normalised(prog, rep):
+    """mpo.py: the right identity index is stored as a (possibly negative) python index --
+    MPO.__add__ stores -1. Wherever it is compared for equality with positions (np.nonzero
+    results, permutation entries) it must first be reduced modulo the bond dimension."""
+    from ..cfg import CFG
+    m = prog.module(MPO)
+    n = 0
+    for q, f in m.functions.items():
+        if not q.startswith('MPO.'):
+            continue
+        ids = {}
+        for st in stmts_of(f):
+            e = pmatch('$v = self.get_IdR($$j)', st) or pmatch('$v = self.IdR[$$j]', st)
+            if e:
+                ids[e['$v']] = st
+        if not ids:
+            continue
+        cfg = None
+        for c in body_nodes(f):
+            if isinstance(c, ast.Compare) and len(c.ops) == 1 and isinstance(c.ops[0], ast.Eq):
+                for side in (c.left, c.comparators[0]):
+                    if isinstance(side, ast.Name) and side.id in ids:
+                        other = c.comparators[0] if side is c.left else c.left
+                        if isinstance(other, ast.Constant):
+                            continue
+                        n += 1
+                        st = c
+                        while not isinstance(st, ast.stmt):
+                            st = parent(st)
+                        cfg = cfg or CFG(f)
+                        v = side.id
+
+                        def normalised(nd, v=v):
+                            s2 = nd.stmt
+                            return isinstance(s2, ast.Assign) and unparse(s2.targets[0]) == v and (
+                                bool(pmatch('%s %% $$n' % v, s2.value)) or
+                                bool(pmatch('$$n + %s' % v, s2.value)))
+
+                        ok = cfg.dominators_like_before(st, lambda nd: normalised(nd) or (
+                            isinstance(nd.stmt, ast.If) and any(
+                                normalised(type('N', (), {'stmt': b})()) for b in
+                                ast.walk(nd.stmt) if isinstance(b, ast.Assign))))
+                        rep.instance('ID-normalised', {'function': q, 'compare': unparse(c),
+                                                       'normalised': ok})
+                        if not ok:
+                            rep.violation('ID-normalised', m, q, 'raw-id-compare:' + v,
+                                          '`%s` compares the stored right identity index with '
+                                          'positions without reducing it modulo the bond '
+                                          'dimension: for MPOs produced by `+` (IdR = -1) it '
+                                          'never matches' % unparse(c), c.lineno)
+    return n
+
+
 def check_apply_errflow(prog, rep):
     m = prog.module(MPO)
     prod = {'svd_theta': 3, 'compress_svd': None, 'compress': None, 'run': None,
@@ -224,12 +356,20 @@ def run(prog, rep, tier):
     rep.rule('HCFLAG-derived', 'derived MPOs inherit the flag; __add__ compares flags; dagger and '
              'the propagators treat it explicitly')
     rep.rule('ID-pairing', 'identity indices from get_IdL slice wL legs, from get_IdR wR legs')
+    rep.rule('RANGE-loop-carried / ID-normalised', 'inner range bounds are not narrowed across '
+             'outer iterations; stored identity indices are reduced modulo the bond dimension '
+             'before equality tests with positions')
+    rep.rule('RANGE-sanitised', 'no raw read of X.max_range after a sanitised local copy exists')
     rep.rule('RANGE-derived', 'decision table of max_range of a sum over known/unknown ranges')
     rep.rule('MPO-errflow', 'truncation errors of the apply methods reach the returned value')
     n1 = check_hcflag_mpo(prog, rep)
     n2 = check_id_pairing(prog, rep)
     check_apply_errflow(prog, rep)
     check_derived_range(prog, rep)
+    if check_loop_limits(prog, rep) < 1 or check_id_normalised(prog, rep) < 2:
+        raise AnalysisError('RANGE-loop-carried / ID-normalised: anchors in mpo.py not found')
+    if check_sanitised_range(prog, rep) < 2:
+        raise AnalysisError('RANGE-sanitised: the sanitised ranges of MPO.overlap were not found')
     rep.floor('RANGE-derived', 4)
     rep.floor('HCFLAG-mpo', 20)
     rep.floor('HCFLAG-derived', 5)
